@@ -80,9 +80,20 @@ def run(ctx):
         in_loop = any(any(c.bb in body for _, body in f.loops()) for c in marks)
         ctx.ob("P2.MARKS-ALL", f.id, bool(marks) and in_loop, "marks every commit of the batch (call inside the loop over the batch)"
                if marks and in_loop else "does not call %s for every commit of the batch" % marker, f.loc())
+        # the tail (clear flag, notify) may live in a private helper of the queue: follow it when this function itself does not
+        # write the flag and every path passes the helper call
+        host = f
+        if not field_writes(f, "QueueState::flush_in_progress"):
+            helpers = [m.fns[c.name] for c in f.calls if c.name in m.fns and c.name.startswith(Q) and field_writes(m.fns[c.name], "QueueState::flush_in_progress")]
+            if len({h.id for h in helpers}) == 1:
+                h = helpers[0]
+                esc_h = success_escapes(f, [0], [c.bb for c in f.calls if c.name == h.id], returns_result=False)
+                if not esc_h:
+                    host = h
+        f_outer, f = f, host
         ws = [w for w in field_writes(f, "QueueState::flush_in_progress")]
         clears = [bb for bb, v in ws if v == 0]
-        ctx.ob("P2.CLEARS-FLAG", f.id, bool(clears) and all(v == 0 for _, v in ws),
+        ctx.ob("P2.CLEARS-FLAG", f_outer.id, bool(clears) and all(v == 0 for _, v in ws),
                "clears flush_in_progress" if clears else "does not clear flush_in_progress (stuck flush flag)", f.loc())
         nots = [c for c in f.calls if c.name.endswith("Condvar::notify_all")]
         ok = bool(nots) and bool(clears)
@@ -90,13 +101,20 @@ def run(ctx):
             # every path entry -> return passes notify_all, and the flag write dominates it
             esc = success_escapes(f, [0], [c.bb for c in nots], returns_result=False)
             ok = not esc and all(any(f.dominates(w, c.bb) for w in clears) for c in nots)
-        ctx.ob("P2.NOTIFY-AFTER-CLEAR", f.id, ok, "notify_all on every path, after the flag is cleared" if ok else
-               "waiters are not (always) notified after the flag is cleared", f.loc())
+        ctx.ob("P2.NOTIFY-AFTER-CLEAR", f_outer.id, ok, "notify_all on every path, after the flag is cleared" if ok else
+               "waiters are not (always) notified after the flag is cleared%s" % ("" if f is f_outer else " (in helper %s)" % f.id.rsplit("::", 1)[-1]), f.loc())
         # the guard protecting the flag write is released before notify (no wake-into-held-lock is not required);
         # but the write must be under the state lock: its base derives from Mutex::lock on `state`
         locks = [c for c in f.calls if c.name.endswith("Mutex::<R, T>::lock")]
-        ctx.ob("P2.WRITE-UNDER-LOCK", f.id, bool(locks) and all(any(f.dominates(l.bb, w) for l in locks) for w in clears),
-               "flag write dominated by state.lock()", f.loc())
+        under = bool(locks) and all(any(f.dominates(l.bb, w) for l in locks) for w in clears)
+        if not under and f is not f_outer:
+            # the caller may hold the lock and hand the guarded state to the helper
+            ol = [c for c in f_outer.calls if c.name.endswith("Mutex::<R, T>::lock")]
+            hc = [c for c in f_outer.calls if c.name == f.id]
+            under = bool(ol) and bool(hc) and all(any(f_outer.dominates(l.bb, c.bb) for l in ol) for c in hc) and bool(clears)
+        ctx.ob("P2.WRITE-UNDER-LOCK", f_outer.id, under, "flag write dominated by state.lock()" if under else
+               "flush_in_progress is written without the state lock", f.loc())
+        f = f_outer
 
     # ---- P3 ----
     w = m.fn(Q + "wait_for_completion")
